@@ -58,9 +58,10 @@ fn run11(ctx: &mut Ctx) {
         sim.mem[a] = Word::new_init(0xF000 | trap);
         sim.mem[a.wrapping_add(1)] = Word::new_init(0xF025);
         // string
+        let mut zero_low_terminator = false;
         let slen = match rng.below(6) { 0 => 0, 1 => 1, 2 => 2, _ => rng.usize(41) };
         let bytes: Vec<u8> = (0..slen).map(|_| 1 + rng.below(255) as u8).collect();
-        let words: Vec<u16> = if trap == 0x24 { let mut w: Vec<u16> = bytes.chunks(2).map(|c| c[0] as u16 | ((c.get(1).copied().unwrap_or(0) as u16) << 8)).collect(); if bytes.len() % 2 == 0 { w.push(0); } w } else { let mut w: Vec<u16> = bytes.iter().map(|b| *b as u16).collect(); w.push(0); w };
+        let words: Vec<u16> = if trap == 0x24 { let mut w: Vec<u16> = bytes.chunks(2).map(|c| c[0] as u16 | ((c.get(1).copied().unwrap_or(0) as u16) << 8)).collect(); if bytes.len() % 2 == 0 { if rng.chance(1, 3) { w.push((1 + rng.below(255) as u16) << 8); w.push(0x4141); zero_low_terminator = true; } else { w.push(0); } } w } else { let mut w: Vec<u16> = bytes.iter().map(|b| *b as u16).collect(); w.push(0); w };
         let s_addr: u16 = loop { let s = match rng.below(4) { 0 => 0xFE00 - words.len() as u16, 1 => 0x3002, _ => 0x3000 + rng.below(0xCE00 - words.len() as u64) as u16 }; let e = s + words.len() as u16; if e <= 0xFE00 && (e <= a || s > a + 1) { break s; } };
         for (i, w) in words.iter().enumerate() { sim.mem[s_addr + i as u16] = Word::new_init(*w); }
         let mut regs = [0u16; 8];
@@ -113,6 +114,7 @@ fn run11(ctx: &mut Ctx) {
         if sim.psr().get() != psr { ctx.violation(&format!("psr-not-preserved:{name}"), format!("PSR x{:04X}, before x{psr:04X}", sim.psr().get()), case()); return; }
         if let Some(k) = (0..before.len()).find(|k| sim.mem[0x3000 + *k as u16].get() != before[*k]) { ctx.violation(&format!("user-memory-changed:{name}"), format!("mem[x{:04X}] changed", 0x3000 + k), case()); return; }
         ctx.count(&format!("calls.{name}.{tag}"));
+        if zero_low_terminator { ctx.count("strings.PUTSP.terminated-by-zero-low-byte-with-nonzero-high-byte"); }
         if trap == 0x22 || trap == 0x24 { ctx.count(&format!("strings.{name}.len-{}", match slen { 0 => "0", 1 => "1", _ if slen % 2 == 1 => "odd", _ => "even" })); }
         if ctx.want_sample() && slen > 2 && slen < 12 && (trap == 0x24 || trap == 0x23) { ctx.sample(case().set("display", format!("{:?}", String::from_utf8_lossy(&disp))).set("steps", steps)); }
     });
@@ -120,6 +122,7 @@ fn run11(ctx: &mut Ctx) {
 fn guard11(m: &Merged, _t: Tier) -> Vec<String> {
     let mut out = vec![];
     for n in ["GETC", "OUT", "PUTS", "IN", "PUTSP", "HALT"] { for t in ["real", "virtual"] { need(m, &mut out, &format!("calls.{n}.{t}"), 100); } }
+    need(m, &mut out, "strings.PUTSP.terminated-by-zero-low-byte-with-nonzero-high-byte", 20);
     for n in ["PUTS", "PUTSP"] { for l in ["0", "1", "odd", "even"] { need(m, &mut out, &format!("strings.{n}.len-{l}"), 20); } }
     out
 }
